@@ -1,1 +1,203 @@
-From MiniMcmc Require Import Model.StatsEval.
+(* C12 — ESS equals (number of half-chains x their length) / tau where
+   tau = -1 + 2 * (sum of Geyer's initial positive, monotone pair sums of the autocorrelation
+   estimate rho_t = 1 - (W - mean autocovariance_t) / var+), identically whether the brute-force
+   or the FFT autocovariance is selected.  It is invariant under affine rescaling, chain
+   permutation and time reversal.
+   Model: Model/Stats.v (autocov, circ_autocov, geyer, tau_of_rho, withinvar, ess_tau, ess),
+   instantiated at the real numbers (numR).  Proofs: Proofs/Ess.v.
+   The FFT path is modelled by circ_autocov: the circular autocorrelation of the centred,
+   zero-padded sequence, which is what IDFT(|DFT|^2) equals by the correlation theorem (trusted,
+   not part of this development). *)
+From MiniMcmc Require Import Base.Num Base.Util Model.Stats Proofs.Ess.
+From Coq Require Import Reals Lra Lia Permutation.
+Open Scope R_scope.
+
+(* ---- (1) FFT (circular, zero-padded to P >= 2n-1) autocovariance = brute-force autocovariance *)
+Theorem C12_fft_is_bf : forall (P : nat) (xs : list R) (t : nat),
+  (2 * length xs - 1 <= P)%nat -> (t < length xs)%nat ->
+  nth t (circ_autocov numR P xs) 0 = nth t (autocov numR xs) 0.
+Proof. exact circ_autocov_nth. Qed.
+
+Theorem C12_fft_is_bf_list : forall (P : nat) (xs : list R),
+  (2 * length xs - 1 <= P)%nat -> circ_autocov numR P xs = autocov numR xs.
+Proof. exact circ_autocov_eq. Qed.
+
+(* ess_tau_with ac hs is ess_tau with the autocovariance routine ac in place of autocov
+   (ess_tau_with (autocov numR) hs = ess_tau numR hs holds by reflexivity): tau is the same
+   whichever of the two is selected. *)
+Theorem C12_tau_fft_is_bf : forall (P N : nat) (hs : list (list R)),
+  (forall h, In h hs -> length h = N) -> (2 * N - 1 <= P)%nat ->
+  ess_tau_with (circ_autocov numR P) hs = ess_tau numR hs /\
+  ess_tau_with (autocov numR) hs = ess_tau numR hs.
+Proof.
+  intros P N hs Hall HP. split; [exact (ess_tau_with_fft P N hs Hall HP)|exact (ess_tau_with_bf hs)].
+Qed.
+
+(* ---- (2) the autocorrelation estimate, and its value 1 at lag 0 *)
+(* ess_tau is tau_of_rho of the list rho_list hs, whose t-th entry is
+   1 - (W - mean over chains of autocov_t) / var+  with (W, var+) = withinvar hs. *)
+Theorem C12_rho : forall (hs : list (list R)),
+  ess_tau numR hs = tau_of_rho numR (rho_list hs) /\
+  length (rho_list hs) = hd_len hs /\
+  forall t, (t < hd_len hs)%nat ->
+    nth t (rho_list hs) 0 =
+    1 - (fst (withinvar numR hs) - meanK numR (map (fun h => nth t (autocov numR h) 0) hs))
+        / snd (withinvar numR hs).
+Proof.
+  intros hs. split; [exact (ess_tau_rho hs)|]. split; [exact (rho_list_length hs)|exact (rho_list_nth hs)].
+Qed.
+
+Theorem C12_lag0 : forall xs : list R, xs <> [] -> nth 0 (autocov numR xs) 0 = var_n numR xs.
+Proof. exact autocov_0. Qed.
+
+Theorem C12_rho0 : forall hs : list (list R),
+  hs <> [] -> (forall h, In h hs -> h <> []) -> snd (withinvar numR hs) <> 0 ->
+  nth 0 (rho_list hs) 0 = 1.
+Proof. exact rho_list_0. Qed.
+
+(* ---- (3) Geyer's rule.  pair_sum rho j = rho_{2j} + rho_{2j+1}. *)
+(* geyer returns out + the sum of the list geyer_terms rho mn, for every sufficient fuel *)
+Theorem C12_geyer_sum : forall (fuel : nat) (rho : list R) (mn out : R),
+  (length rho <= 2 * fuel)%nat ->
+  geyer numR fuel rho mn out = out + sumR (geyer_terms rho mn).
+Proof. exact geyer_spec. Qed.
+
+Theorem C12_geyer_fuel : forall (fuel : nat) (rho : list R) (mn out : R),
+  (length rho <= fuel)%nat -> geyer numR fuel rho mn out = geyer numR (length rho) rho mn out.
+Proof. exact geyer_fuel. Qed.
+
+(* the list geyer_terms rho mn has exactly k entries, k = number of leading strictly positive pair
+   sums (it stops at the first pair sum <= 0 or when fewer than two entries remain), and its j-th
+   entry is min (mn, P_0, ..., P_j) *)
+Theorem C12_geyer_shape : forall (rho : list R) (mn : R),
+  exists k : nat,
+    (k <= Nat.div2 (length rho))%nat /\
+    (forall j, (j < k)%nat -> 0 < pair_sum rho j) /\
+    ((k < Nat.div2 (length rho))%nat -> pair_sum rho k <= 0) /\
+    length (geyer_terms rho mn) = k /\
+    (forall j, (j < k)%nat ->
+       nth j (geyer_terms rho mn) 0 = fold_left Rmin (map (pair_sum rho) (seq 0 (S j))) mn).
+Proof. exact geyer_terms_shape. Qed.
+
+(* every summed term is strictly positive, at most its pair sum and at most mn, and the terms
+   are non-increasing *)
+Theorem C12_geyer_terms : forall (rho : list R) (mn : R), 0 < mn ->
+  (forall j, (j < length (geyer_terms rho mn))%nat ->
+     0 < nth j (geyer_terms rho mn) 0 /\
+     nth j (geyer_terms rho mn) 0 <= pair_sum rho j /\
+     nth j (geyer_terms rho mn) 0 <= mn) /\
+  (forall j, (S j < length (geyer_terms rho mn))%nat ->
+     nth (S j) (geyer_terms rho mn) 0 <= nth j (geyer_terms rho mn) 0).
+Proof. exact geyer_terms_props. Qed.
+
+(* tau = -1 + 2 * (that sum), the running minimum starting at the first pair sum *)
+Theorem C12_tau : forall rho : list R,
+  tau_of_rho numR rho = 2 * sumR (geyer_terms rho (pair_sum rho 0)) - 1.
+Proof. exact tau_of_rho_pair_sum. Qed.
+
+(* ---- (4) ESS = M * N / tau *)
+Theorem C12_formula : forall (hs : list (list R)) (N : nat),
+  hs <> [] -> (forall h, In h hs -> length h = N) ->
+  ess numR hs = IZR (Z.of_nat (length hs)) * IZR (Z.of_nat N) / ess_tau numR hs.
+Proof. exact ess_formula. Qed.
+
+(* (2)-(4) assembled *)
+Theorem C12_ess : forall (hs : list (list R)) (N : nat),
+  hs <> [] -> (forall h, In h hs -> length h = N) ->
+  ess numR hs =
+  IZR (Z.of_nat (length hs)) * IZR (Z.of_nat N)
+  / (2 * sumR (geyer_terms (rho_list hs) (pair_sum (rho_list hs) 0)) - 1).
+Proof.
+  intros hs N Hne Hall.
+  rewrite (ess_formula hs N Hne Hall), ess_tau_rho, tau_of_rho_pair_sum. reflexivity.
+Qed.
+
+(* ---- (5) time reversal *)
+Theorem C12_reverse_autocov : forall xs : list R, autocov numR (rev xs) = autocov numR xs.
+Proof. exact autocov_rev. Qed.
+
+Theorem C12_reverse_withinvar : forall hs : list (list R),
+  withinvar numR (map (@rev R) hs) = withinvar numR hs.
+Proof. exact withinvar_rev. Qed.
+
+Theorem C12_reverse : forall hs : list (list R),
+  ess_tau numR (map (@rev R) hs) = ess_tau numR hs /\ ess numR (map (@rev R) hs) = ess numR hs.
+Proof. exact ess_rev. Qed.
+
+(* ---- (6) affine rescaling x |-> a x + b, a <> 0 *)
+Theorem C12_affine_autocov : forall (a b : R) (xs : list R),
+  autocov numR (map (fun x => a * x + b) xs) = map (fun c => a * a * c) (autocov numR xs).
+Proof. exact autocov_affine. Qed.
+
+Theorem C12_affine_withinvar : forall (a b : R) (hs : list (list R)),
+  hs <> [] -> (forall h, In h hs -> h <> []) ->
+  withinvar numR (map (map (fun x => a * x + b)) hs)
+  = (a * a * fst (withinvar numR hs), a * a * snd (withinvar numR hs)).
+Proof. exact withinvar_affine. Qed.
+
+Theorem C12_affine : forall (a b : R) (hs : list (list R)) (N : nat),
+  a <> 0 -> (forall h, In h hs -> length h = N) -> snd (withinvar numR hs) <> 0 ->
+  ess_tau numR (map (map (fun x => a * x + b)) hs) = ess_tau numR hs /\
+  ess numR (map (map (fun x => a * x + b)) hs) = ess numR hs.
+Proof. exact ess_affine. Qed.
+
+(* ---- (7) chain permutation *)
+Theorem C12_perm : forall (hs hs' : list (list R)) (N : nat),
+  Permutation hs hs' -> (forall h, In h hs -> length h = N) ->
+  ess_tau numR hs' = ess_tau numR hs /\ ess numR hs' = ess numR hs.
+Proof. exact ess_perm. Qed.
+
+(* ---- Non-vacuity and concrete values *)
+(* the two autocovariance routines on [1;2;3;4] (exact rationals), padded length 8 >= 2*4-1 *)
+Example C12_autocov_concrete :
+  let xs := map inject_Z [1; 2; 3; 4]%Z in
+  autocov numQ xs = [5 # 4; 5 # 16; -3 # 8; -9 # 16]%Q /\
+  circ_autocov numQ 8 xs = autocov numQ xs /\
+  circ_autocov numQ 7 xs = autocov numQ xs /\
+  circ_autocov numQ 6 xs <> autocov numQ xs.
+Proof.
+  cbv zeta. split; [vm_compute; reflexivity|]. split; [vm_compute; reflexivity|].
+  split; [vm_compute; reflexivity|]. vm_compute. discriminate.
+Qed.
+
+(* Geyer's rule on rho = [1; 1/2; 1/4; 1/8; 1/4; 1/4; -1/4; 0; 1; 1]: pair sums 3/2, 3/8, 1/2,
+   -1/4, 2; the third is clamped to 3/8, the fourth stops the sum: tau = 2 * (3/2+3/8+3/8) - 1 *)
+Example C12_tau_concrete :
+  tau_of_rho numQ [1; 1 # 2; 1 # 4; 1 # 8; 1 # 4; 1 # 4; -1 # 4; 0; 1; 1]%Q = (7 # 2)%Q.
+Proof. vm_compute. reflexivity. Qed.
+
+(* the hypotheses of C12_rho0 / C12_affine / C12_perm / C12_formula are satisfiable *)
+Example C12_hypotheses_satisfiable :
+  let hs := [[0; 1]; [0; 3]] in
+  hs <> [] /\ (forall h, In h hs -> length h = 2%nat) /\ (forall h, In h hs -> h <> []) /\
+  snd (withinvar numR hs) = 9 / 8 /\ snd (withinvar numR hs) <> 0 /\
+  Permutation hs [[0; 3]; [0; 1]].
+Proof.
+  cbv zeta.
+  assert (E : snd (withinvar numR [[0; 1]; [0; 3]]) = 9 / 8).
+  { unfold withinvar, var_n, meanK, sumK, sqK, ofN. simpl. field. }
+  split; [discriminate|]. split; [intros h [<-|[<-|[]]]; reflexivity|].
+  split; [intros h [<-|[<-|[]]]; discriminate|]. split; [exact E|].
+  split; [rewrite E; lra|]. apply perm_swap.
+Qed.
+
+Print Assumptions C12_fft_is_bf.
+Print Assumptions C12_fft_is_bf_list.
+Print Assumptions C12_tau_fft_is_bf.
+Print Assumptions C12_rho.
+Print Assumptions C12_lag0.
+Print Assumptions C12_rho0.
+Print Assumptions C12_geyer_sum.
+Print Assumptions C12_geyer_fuel.
+Print Assumptions C12_geyer_shape.
+Print Assumptions C12_geyer_terms.
+Print Assumptions C12_tau.
+Print Assumptions C12_formula.
+Print Assumptions C12_ess.
+Print Assumptions C12_reverse_autocov.
+Print Assumptions C12_reverse_withinvar.
+Print Assumptions C12_reverse.
+Print Assumptions C12_affine_autocov.
+Print Assumptions C12_affine_withinvar.
+Print Assumptions C12_affine.
+Print Assumptions C12_perm.
